@@ -4,7 +4,7 @@ use serde_json::json;
 
 use crate::bits::{hex, unhex};
 use crate::common::{Run, Tier};
-use crate::e1::{all_leaves, decode, e1_coverage, field_check, run_units, Decoded, LeafSpec, Local};
+use crate::e1::{all_leaves, decode, e1_coverage, field_check, field_check_owned, run_units_tagged, Case, Decoded, LeafSpec, Local};
 use crate::proj::project;
 use crate::refdec::ref_decode;
 
@@ -35,8 +35,8 @@ pub fn assumptions() -> Vec<String> {
 pub fn generic(tier: Tier, prop: &str, props: &[u8]) -> i32 {
     let run = Run::new(prop, tier);
     let leaves = leaves_for(props);
-    let st = run_units(&run, &leaves, true, true, |bytes, loc: &mut Local| {
-        field_check(bytes, props, "fields", loc);
+    let st = run_units_tagged(&run, &leaves, true, true, |c: &Case, base_ok: bool, loc: &mut Local| {
+        field_check_owned(&c.bytes, c.owners, base_ok, props, "fields", loc);
     });
     if prop == "C08" {
         callsign_pairs(&run, tier);
@@ -72,8 +72,8 @@ fn sample_cases(run: &Run, leaves: &[LeafSpec]) {
 pub fn c04(tier: Tier) -> i32 {
     let run = Run::new("C04", tier);
     let leaves = leaves_for(&[4]);
-    let st = run_units(&run, &leaves, true, true, |bytes, loc: &mut Local| {
-        field_check(bytes, &[4], "fields", loc);
+    let st = run_units_tagged(&run, &leaves, true, true, |c: &Case, base_ok: bool, loc: &mut Local| {
+        field_check_owned(&c.bytes, c.owners, base_ok, &[4], "fields", loc);
     });
     sample_cases(&run, &leaves);
     // ICAO text round trip: all 2^24 addresses
